@@ -48,7 +48,9 @@ def main(tier, seed):
                                extract=extract, inner_fn=venc.rf_text)
     # python side on the same descriptions
     used = {it.unit.desc_id.split('#')[0] for it in items}
-    pdescs = [d for d in corpus.corpus(tier, seed, backend='python') if d.id in used or (d.family == 'R')]
+    # inheritance chains and core descriptions of the common corpus are always on the Python side (cheap)
+    pdescs = [d for d in corpus.corpus(tier, seed, backend='python')
+              if d.id in used or d.family == 'R' or (d.rust and (d.family == 'F4' or d.core))]
     pdescs = [d for d in pdescs if d.family != 'R'] + ([d for d in pdescs if d.family == 'R'] if tier != 'quick' else [])
     results = pyrun.run_corpus(pdescs, 12 if tier == 'quick' else 20, ('parse', 'serialize'), ser_limit=8, budget_s=200)
     pcov = c13.summarize(results, out, prop=PROP)
